@@ -1273,17 +1273,27 @@ int verify_prefix_ex(struct jls_rd_s *rd, const model_t *m, const char *prop, rn
             /* statistics agree with the submitted prefix */
             if (s->dt->bits != 64 || 1) {
                 int64_t sdf = defs[i].sample_decimate_factor ? defs[i].sample_decimate_factor : 1;
-                for (int q = 0; q < 3 && !bad; ++q) {
-                    int64_t incr, count;
+                int64_t sumdf0 = defs[i].summary_decimate_factor ? defs[i].summary_decimate_factor : 10;
+                for (int q = 0; q < 5 && !bad; ++q) {
+                    int64_t incr, count, start = 0;
                     if (q == 0) { incr = got; count = 1; }
                     else if (q == 1) { incr = sdf; count = got / sdf; if (count > 40) count = 40; }
-                    else { incr = 1 + (int64_t) rng_below(r, (uint64_t) (got < 50 ? got : 50)); count = 1; }
-                    if (count < 1 || incr < 1 || incr * count > got) continue;
-                    int lv = 0; int64_t mult = sdf; int64_t sumdf = defs[i].summary_decimate_factor ? defs[i].summary_decimate_factor : 10;
+                    else if (q == 2) { incr = 1 + (int64_t) rng_below(r, (uint64_t) (got < 50 ? got : 50)); count = 1; }
+                    else {
+                        /* served from level-1 (q 3) and level-2 (q 4) summaries, at a random start */
+                        int64_t k = 1 + (int64_t) rng_below(r, 3);
+                        incr = sdf * (q == 4 ? sumdf0 : 1) * k;
+                        count = (25 + k - 1) / k + (int64_t) rng_below(r, 4);
+                        if (rng_chance(r, 1, 3)) { incr = incr * count + (int64_t) rng_below(r, (uint64_t) sdf); count = 1; }
+                        if (incr * count > got) continue;
+                        start = (int64_t) rng_below(r, (uint64_t) (got - incr * count + 1));
+                    }
+                    if (count < 1 || incr < 1 || start + incr * count > got) continue;
+                    int lv = 0; int64_t mult = sdf; int64_t sumdf = sumdf0;
                     while (incr >= mult && incr * count >= 25 * mult) { ++lv; mult *= sumdf; }
                     /* blocks omitted on request hold synthesised samples: statistics over them are not comparable */
                     if (s->omit_ever && s->dt->bits > 8) continue;
-                    bad += check_stats_request(rd, m, id, &o, 0, incr, count, &defs[i], lv);
+                    bad += check_stats_request(rd, m, id, &o, start, incr, count, &defs[i], lv);
                 }
             }
         }
